@@ -235,6 +235,11 @@ Definition dtext (t : dty) (dflt : option sval) : option text :=
 Lemma default_text_dtext f : default_text f = dtext (fl_ty f) (fl_default f).
 Proof. reflexivity. Qed.
 
+Lemma fld_ok_ty n f : fld_ok n f = true -> dty_ok n (fl_ty f) = true.
+Proof. unfold fld_ok. intros H. split_all. assumption. Qed.
+Lemma fld_ok_max n f : fld_ok n f = true -> ext_leb (Fin 1) (fl_max f) = true.
+Proof. unfold fld_ok. intros H. split_all. assumption. Qed.
+
 Definition ty_known (U : univ) (t : dty) : Prop :=
   match t with
   | DRef c => (c < length U)%nat
@@ -298,8 +303,7 @@ Section Emitted.
     intros IH Hcl Hf Hok He Hconf Hemit.
     assert (Hk : fl_kind f = FElem) by (unfold is_elem in He; destruct (fl_kind f); [reflexivity|discriminate]).
     assert (Hty : ty_known U (fl_ty f)).
-    { unfold fld_ok in Hok. apply andb_prop in Hok. destruct Hok as [Hok _]. apply andb_prop in Hok. destruct Hok as [Hok _].
-      unfold ty_known. destruct (fl_ty f) as [st|c|aq iname el] eqn:Et.
+    { apply fld_ok_ty in Hok. unfold ty_known. destruct (fl_ty f) as [st|c|aq iname el] eqn:Et.
       - split; [|exact Hok]. unfold tys_of. apply in_flat_map. exists cl. split; [exact Hcl|].
         apply in_flat_map. exists f. split; [exact Hf|]. rewrite Et. left. reflexivity.
       - cbn in Hok. apply Nat.ltb_lt. exact Hok.
@@ -579,9 +583,6 @@ Section Emitted.
       rewrite forallb_forall in Hel. repeat split; auto.
   Qed.
 
-  Lemma fld_ok_max f : fld_ok (length U) f = true -> fl_min f = 0 -> True.
-  Proof. trivial. Qed.
-
   Lemma members_match k : emit_valid_at k -> forall (L : list (text * item)) vals kids atts,
     (forall p, In p L -> item_known (snd p)) ->
     NoDup (map (fun p => fl_name (snd p)) (L_flds L)) ->
@@ -682,6 +683,340 @@ Section Emitted.
           cbn [tagged map combine filter fst snd]. fold (tagged ns ms'). destruct (0 <? occ6 f0 y); cbn [length]; rewrite IHm; reflexivity. }
         rewrite Hfl. lia.
       + intros m Hm. cbn [items_match]. rewrite S1. rewrite (V1 m Hm), (M2 m Hm). reflexivity.
+  Qed.
+
+
+  (* ---------------------------------------------------------------- the attribute uses *)
+  Lemma in_combine_ex2 {A B} (l1 : list A) : forall (l2 : list B) a,
+    length l2 = length l1 -> In a l1 -> exists b, In (a, b) (combine l1 l2).
+  Proof.
+    induction l1 as [|x r IH]; intros l2 a Hl Ha; [destruct Ha|]. destruct l2 as [|y l2]; [discriminate|].
+    destruct Ha as [->|Ha]; [exists y; left; reflexivity|]. destruct (IH l2 a ltac:(cbn in Hl; lia) Ha) as [b Hb].
+    exists b. right. exact Hb.
+  Qed.
+
+  Lemma fld_attr_facts f : fld_ok (length U) f = true -> is_elem f = false ->
+    (exists st, fl_ty f = DLeaf st /\ wf_stype st = true)
+    /\ (fl_min f <= 0 -> eff_required (adecl_of f) = false) /\ 0 <= fl_min f.
+  Proof.
+    intros Hok He. unfold fld_ok in Hok. unfold is_elem in He. destruct (fl_kind f) eqn:Ek; [discriminate|]. split_all.
+    destruct (fl_ty f) as [st| |] eqn:Et; try discriminate. split; [exists st; split; [reflexivity|assumption]|]. split; [|lia].
+    intros Hmin. unfold eff_required, adecl_of, attr_use. cbn [a_required].
+    destruct (fl_use f) as [b|].
+    - match goal with H : Bool.eqb b (0 <? fl_min f) = true |- _ => apply eqb_prop in H; rewrite H end.
+      destruct (0 <? fl_min f) eqn:E; [lia|reflexivity].
+    - destruct (fl_min f >? 0) eqn:E; [lia|reflexivity].
+  Qed.
+
+  Lemma attrs_emitted_ok k : forall (F : list (text * fld)) vals kids atts,
+    (forall p, In p F -> exists cl, In cl U /\ In (snd p) (k_own cl) /\ fld_ok (length U) (snd p) = true) ->
+    NoDup (map (fun p => fl_name (snd p)) F) -> length vals = length F ->
+    (forall p x, In (p, x) (combine F vals) -> field_conf6 U (vconf U extra k) (snd p) x = true) ->
+    emit_members (emit U k) F vals = Ok (kids, atts) ->
+    attrs_ok pat olex S (attrs_of (map snd F)) atts = true
+    /\ forallb (fun a => negb (is_xsi a)) atts = true.
+  Proof.
+    intros F vals kids atts Hkn Hnd Hlen Hconf Hemit.
+    destruct (members_atts _ F vals kids atts Hnd Hlen Hemit) as [A1 A2].
+    assert (Hplain : forall a, In a atts -> is_xsi a = false).
+    { intros [[ns n] v] Ha. destruct (A1 _ Ha) as (p & _ & _ & Hns & _). cbn in Hns. subst ns. reflexivity. }
+    split; [|apply forallb_forall; intros a Ha; rewrite (Hplain a Ha); reflexivity].
+    unfold attrs_ok. apply andb_true_iff. split.
+    - apply forallb_forall. intros [[ns n] v] Ha. destruct (A1 _ Ha) as (p & Hp & Hel & Hns & Hnm). cbn in Hns, Hnm. subst ns n.
+      apply orb_true_iff. right. cbn [andb]. apply existsb_exists. exists (adecl_of (snd p)). split.
+      + unfold attrs_of. apply in_map. apply filter_In. split; [apply in_map; exact Hp|rewrite Hel; reflexivity].
+      + cbn [a_name adecl_of]. apply text_eqb_same.
+    - apply forallb_forall. intros d Hd. unfold attrs_of in Hd. apply in_map_iff in Hd. destruct Hd as (f & <- & Hf).
+      apply filter_In in Hf. destruct Hf as [Hf Hel]. apply negb_true_iff in Hel.
+      apply in_map_iff in Hf. destruct Hf as (p & <- & Hp).
+      destruct (in_combine_ex2 F vals p Hlen Hp) as [x Hpx].
+      cbn [a_name adecl_of]. rewrite (A2 p x Hpx Hel).
+      destruct (Hkn p Hp) as (cl & Hcl & Hin & Hok).
+      destruct (fld_attr_facts (snd p) Hok Hel) as ((st & Et & Hwst) & Hreq & Hmin0).
+      specialize (Hconf p x Hpx). unfold field_conf6 in Hconf. unfold is_elem in Hel.
+      destruct (fl_kind (snd p)) eqn:Ek; [discriminate|]. apply andb_prop in Hconf. destruct Hconf as [Hocc Hrec].
+      rewrite Et. destruct x as [|v|? ?|?]; try discriminate Hrec.
+      + apply negb_true_iff. apply Hreq. unfold occ6 in Hocc. rewrite Ek in Hocc. lia.
+      + rewrite Et in Hrec. destruct k as [|k']; [discriminate|]. cbn [vconf] in Hrec.
+        apply andb_prop in Hrec. destruct Hrec as [Hlc Hex].
+        assert (Hin_ty : In (DLeaf st) (tys_of U)).
+        { unfold tys_of. apply in_flat_map. exists cl. split; [exact Hcl|]. apply in_flat_map. exists (snd p). split; [exact Hin|].
+          rewrite Et. left. reflexivity. }
+        unfold adecl_of. cbn [a_type]. rewrite Et. rewrite (simple_ok_leaf pat olex U S Hres st _ Hin_ty Hwst).
+        destruct (H_leaf st v Hin_ty Hwst Hlc Hex) as (s & Hs & Hok'). unfold pr_text. rewrite Hs. exact Hok'.
+  Qed.
+
+
+  (* ---------------------------------------------------------------- bookkeeping *)
+  Lemma sub_tys_self t : In t (sub_tys t).
+  Proof. destruct t; left; reflexivity. Qed.
+  Lemma sub_tys_trans t u w : In u (sub_tys t) -> In w (sub_tys u) -> In w (sub_tys t).
+  Proof.
+    revert u w. induction t as [st|c|aq iname e IH]; intros u w Hu Hw.
+    - destruct Hu as [<-|[]]. exact Hw.
+    - destruct Hu as [<-|[]]. exact Hw.
+    - cbn [sub_tys] in Hu. destruct Hu as [<-|Hu]; [exact Hw|]. right. eapply IH; eassumption.
+  Qed.
+  Lemma tys_of_arr aq iname el : In (DArr aq iname el) (tys_of U) -> In el (tys_of U).
+  Proof.
+    unfold tys_of. intros H. apply in_flat_map in H. destruct H as (cl & Hcl & H). apply in_flat_map in H. destruct H as (f & Hf & H).
+    apply in_flat_map. exists cl. split; [exact Hcl|]. apply in_flat_map. exists f. split; [exact Hf|].
+    eapply sub_tys_trans; [exact H|]. cbn [sub_tys]. right. apply sub_tys_self.
+  Qed.
+
+  Lemma chain_known : forall fuel c L, chain_fuel fuel U c = Some L -> forall p, In p L -> item_known (snd p).
+  Proof.
+    induction fuel as [|k IH]; intros c L H p Hp; [discriminate|]. cbn [chain_fuel] in H.
+    destruct (get_klass U c) as [cl|] eqn:Ec; [|discriminate].
+    assert (Hown : forall q, In q (map (pair (k_ns cl)) (k_items cl)) -> item_known (snd q)).
+    { intros q Hq. apply in_map_iff in Hq. destruct Hq as (i & <- & Hi). exists cl. split; [|exact Hi].
+      unfold get_klass in Ec. eapply nth_error_In. exact Ec. }
+    destruct (k_parent cl) as [pc|].
+    - destruct (chain_fuel k U pc) as [pl|] eqn:Epl; [|discriminate]. injection H as <-.
+      apply in_app_iff in Hp. destruct Hp as [Hp|Hp]; [eapply IH; eassumption|apply Hown; exact Hp].
+    - injection H as <-. apply Hown. exact Hp.
+  Qed.
+
+  Lemma items_conf_fields rec : forall (L : list (text * item)) vals,
+    items_conf U rec (map snd L) vals = true ->
+    length vals = length (L_flds L)
+    /\ forall p x, In (p, x) (combine (L_flds L) vals) -> field_conf6 U rec (snd p) x = true.
+  Proof.
+    induction L as [|[ns [f|g ms]] r IH]; intros vals H.
+    - cbn in H. destruct vals; [|discriminate]. split; [reflexivity|intros p x []].
+    - cbn [map snd items_conf] in H. destruct vals as [|x vs]; [discriminate|]. apply andb_prop in H. destruct H as [H1 H2].
+      destruct (IH vs H2) as [I1 I2]. cbn [L_flds flat_map fst snd item_flds tagged map app]. fold (L_flds r). split; [cbn; lia|].
+      intros p y Hpy. cbn [combine] in Hpy. destruct Hpy as [Hpy|Hpy]; [injection Hpy as <- <-; exact H1|apply I2; exact Hpy].
+    - cbn [map snd items_conf] in H. set (n := length ms) in *. split_all.
+      match goal with H : (length (firstn n vals) =? n)%nat = true |- _ => apply Nat.eqb_eq in H; rename H into Hn end.
+      match goal with H : items_conf U rec (map snd r) (skipn n vals) = true |- _ => destruct (IH _ H) as [I1 I2] end.
+      match goal with H : forallb _ (combine ms (firstn n vals)) = true |- _ => rewrite forallb_forall in H; rename H into Hall end.
+      cbn [L_flds flat_map fst snd item_flds]. fold (L_flds r).
+      assert (Hv : vals = firstn n vals ++ skipn n vals) by (symmetry; apply firstn_skipn).
+      split.
+      + rewrite app_length. unfold tagged. rewrite map_length. fold n. rewrite <- I1. rewrite Hv at 1. rewrite app_length, Hn. reflexivity.
+      + intros p x Hpx. rewrite Hv in Hpx.
+        assert (Hc : combine (tagged ns ms ++ L_flds r) (firstn n vals ++ skipn n vals)
+                     = combine (tagged ns ms) (firstn n vals) ++ combine (L_flds r) (skipn n vals)).
+        { assert (Hl : length (tagged ns ms) = length (firstn n vals)) by (unfold tagged; rewrite map_length; fold n; lia).
+          clear -Hl. revert Hl. generalize (firstn n vals). generalize (tagged ns ms). intros a. induction a as [|q a IHa]; intros b Hl.
+          - destruct b; [reflexivity|discriminate].
+          - destruct b as [|y b]; [discriminate|]. cbn [app combine]. f_equal. apply IHa. cbn in Hl. lia. }
+        rewrite Hc in Hpx. apply in_app_iff in Hpx. destruct Hpx as [Hpx|Hpx]; [|apply I2; exact Hpx].
+        destruct p as [ns' f]. cbn [snd].
+        assert (Hfx : In (f, x) (combine ms (firstn n vals))).
+        { clear -Hpx. unfold tagged in Hpx. revert Hpx. generalize (firstn n vals). induction ms as [|f0 ms' IHm]; intros l Hpx; [destruct Hpx|].
+          destruct l as [|y l]; [destruct Hpx|]. cbn [map combine] in *. destruct Hpx as [H|H]; [injection H as _ <- <-; left; reflexivity|right; apply IHm; exact H]. }
+        exact (Hall (f, x) Hfx).
+  Qed.
+
+  Lemma L_flds_known L : (forall p, In p L -> item_known (snd p)) ->
+    forall q, In q (L_flds L) -> exists cl, In cl U /\ In (snd q) (k_own cl) /\ fld_ok (length U) (snd q) = true.
+  Proof.
+    intros Hkn q Hq. unfold L_flds in Hq. apply in_flat_map in Hq. destruct Hq as (p & Hp & Hq).
+    unfold tagged in Hq. apply in_map_iff in Hq. destruct Hq as (f & <- & Hf). cbn [snd].
+    pose proof (Hkn p Hp) as Hk. destruct (item_known_flds _ f Hk Hf) as (cl & Hcl & Hin).
+    exists cl. repeat split; try assumption.
+    pose proof (item_known_wf _ Hk) as Hw. destruct (snd p) as [f0|g ms].
+    - destruct Hf as [<-|[]]. exact Hw.
+    - destruct Hw as [_ Hw]. apply Hw. exact Hf.
+  Qed.
+
+
+  (* ---------------------------------------------------------------- the three kinds of element *)
+  Lemma valid_elem_nil m' q dflt ns name :
+    valid_elem pat olex (Datatypes.S m') S q true dflt (XElt ns name [nil_attr] None [])
+    = match resolve_simple S q with
+      | Some _ => true
+      | None => match eff_content m' S q with
+                | Some (ps, ats) => attrs_ok pat olex S ats [nil_attr]
+                | None => false
+                end
+      end.
+  Proof.
+    cbn -[resolve_simple eff_content attrs_ok match_seq]. destruct (resolve_simple S q); [reflexivity|].
+    destruct (eff_content m' S q) as [[ps ats]|]; [|reflexivity]. rewrite andb_true_r. reflexivity.
+  Qed.
+
+
+  Lemma lookup_nil_plain atts : forallb (fun a => negb (is_xsi a)) atts = true -> lookup_att xsi_ns t_nil atts = None.
+  Proof.
+    induction atts as [|[[a b] c] r IH]; [reflexivity|]. cbn [forallb]. intros H. apply andb_prop in H. destruct H as [H1 H2].
+    cbn [lookup_att]. unfold is_xsi in H1. apply negb_true_iff in H1. rewrite H1. cbn [andb]. apply IH. exact H2.
+  Qed.
+
+  Lemma valid_elem_leaf m' st nillable dtxt ns name txt :
+    In (DLeaf st) (tys_of U) -> wf_stype st = true ->
+    valid_elem pat olex (Datatypes.S m') S (leaf_qn st) nillable dtxt (XElt ns name [] txt [])
+    = st_elem_ok pat olex st dtxt txt.
+  Proof.
+    intros Hin Hw. cbn -[resolve_simple eff_content attrs_ok match_seq simple_ok].
+    rewrite (resolve_leaf U S Hres st Hin Hw). unfold st_elem_ok.
+    destruct txt as [[|c r]|], dtxt as [d|]; rewrite ?(simple_ok_leaf pat olex U S Hres st _ Hin Hw); reflexivity.
+  Qed.
+
+  Lemma valid_elem_complex m' q nillable dflt ns name atts kids ps ats :
+    forallb (fun a => negb (is_xsi a)) atts = true -> resolve_simple S q = None -> eff_content m' S q = Some (ps, ats) ->
+    valid_elem pat olex (Datatypes.S m') S q nillable dflt (XElt ns name atts None kids)
+    = attrs_ok pat olex S ats atts && match_seq (velem_m m') ps (filter is_elt kids).
+  Proof.
+    intros Hp Hr He. cbn -[resolve_simple eff_content attrs_ok match_seq].
+    assert (H1 : forallb (fun a => negb (is_xsi a) || is_xsi_nil a) atts = true).
+    { apply forallb_forall. intros a Ha. rewrite forallb_forall in Hp. rewrite (Hp a Ha). reflexivity. }
+    rewrite H1, (lookup_nil_plain atts Hp), Hr, He. cbn [negb is_some andb]. reflexivity.
+  Qed.
+
+
+  Lemma leaf_elem_valid st sv dflt nillable ns name s m' :
+    In (DLeaf st) (tys_of U) -> wf_stype st = true -> leaf_conf st sv = true -> extra sv = true ->
+    (forall d, dflt = Some d -> leaf_conf st d = true /\ extra d = true) ->
+    pr_leaf (st_base st) sv = Ok s ->
+    valid_elem pat olex (Datatypes.S m') S (leaf_qn st) nillable (dtext (DLeaf st) dflt) (wire (XElt ns name [] (Some s) [])) = true.
+  Proof.
+    intros Hin Hw Hlc Hex Hd Hp. rewrite wire_shape. cbn [map].
+    rewrite (valid_elem_leaf m' st nillable _ ns name _ Hin Hw).
+    destruct (H_leaf st sv Hin Hw Hlc Hex) as (s' & Hs' & Hok). rewrite Hp in Hs'. injection Hs' as <-.
+    unfold st_elem_ok, dtext. cbn [leaf_base_of].
+    destruct s as [|c r].
+    - destruct dflt as [d|]; [|exact Hok].
+      destruct (Hd d eq_refl) as [Hlc' Hex']. destruct (H_leaf st d Hin Hw Hlc' Hex') as (sd & Hsd & Hokd).
+      unfold pr_text. rewrite Hsd. exact Hokd.
+    - destruct dflt; exact Hok.
+  Qed.
+
+  Lemma no_required_attrs c L : has_required_attr U c = false -> flat U c = Some (L_flds L) ->
+    (forall q, In q (L_flds L) -> fld_ok (length U) (snd q) = true) ->
+    forall ats, ats = attrs_of (map snd (L_flds L)) -> attrs_ok pat olex S ats [nil_attr] = true.
+  Proof.
+    intros Hreq Hflat Hok ats ->. unfold has_required_attr in Hreq. rewrite Hflat in Hreq.
+    unfold attrs_ok. cbn [forallb]. rewrite andb_true_r.
+    assert (is_xsi nil_attr = true) as -> by reflexivity. cbn [orb andb].
+    apply forallb_forall. intros d Hd. unfold attrs_of in Hd. apply in_map_iff in Hd. destruct Hd as (f & <- & Hf).
+    apply filter_In in Hf. destruct Hf as [Hf Hel]. apply negb_true_iff in Hel. apply in_map_iff in Hf. destruct Hf as (q & <- & Hq).
+    assert (lookup_att [] (a_name (adecl_of (snd q))) [nil_attr] = None) as -> by reflexivity.
+    apply negb_true_iff. destruct (fld_attr_facts (snd q) (Hok q Hq) Hel) as (_ & Hr & Hm). apply Hr.
+    destruct (0 <? fl_min (snd q)) eqn:E; [|lia]. exfalso.
+    assert (existsb (fun p : text * fld => negb (is_elem (snd p)) && (0 <? fl_min (snd p))) (L_flds L) = true).
+    { apply existsb_exists. exists q. split; [exact Hq|]. rewrite Hel, E. reflexivity. }
+    congruence.
+  Qed.
+
+  Theorem emit_valid : forall k, emit_valid_at k.
+  Proof.
+    induction k as [|k IHk]; intros t dflt ns name x e nillable Hty Hconf Hnil Hd Hemit m Hm; [discriminate Hemit|].
+    destruct m as [|m']; [lia|]. assert (Hm' : (k + length U < m')%nat) by lia.
+    cbn [emit] in Hemit.
+    remember (match x, dflt with NNone, Some d => NLeaf d | _, _ => x end) as x' eqn:Ex'.
+    assert (Hx' : (x' = NNone /\ x = NNone /\ dflt = None)
+                  \/ (exists d, x = NNone /\ dflt = Some d /\ x' = NLeaf d)
+                  \/ (x' = x /\ x <> NNone)).
+    { subst x'. destruct x; [destruct dflt; [right; left; eauto|left; auto]| | |]; right; right; split; (reflexivity || discriminate). }
+    clear Ex'.
+    destruct x' as [|sv|d fs|xs].
+    - (* written as a nil element *)
+      destruct Hx' as [(_ & -> & ->)|[(d & _ & _ & H)|(H & Hne)]]; [|discriminate H|subst x; contradiction].
+      injection Hemit as <-. destruct (Hnil eq_refl eq_refl) as [-> Hnok].
+      change (wire (XElt ns name [nil_attr] None [])) with (XElt ns name [nil_attr] None []).
+      rewrite valid_elem_nil.
+      destruct t as [st|c|aq iname el].
+      + destruct Hty as [Hin Hw]. cbn [dty_ok] in Hw. cbn [type_qn]. rewrite (resolve_leaf U S Hres st Hin Hw). reflexivity.
+      + cbn [ty_known] in Hty. destruct (nth_error U c) as [cl|] eqn:Ec; [|apply nth_error_None in Ec; lia].
+        destruct (chain_exists U Hwf c cl Ec) as [L HL].
+        destruct (HL m' ltac:(lia)) as (C1 & _ & _). destruct (HL (Datatypes.S c) ltac:(lia)) as (_ & C2 & _).
+        cbn [type_qn]. destruct (rs_klass S U Hres c cl Ec) as (d & Hd1 & Hd2 & Hd3).
+        pose proof (wf_klass U c cl Hwf Ec) as Hk. unfold klass_ok in Hk. split_all.
+        rewrite (resolve_complex S (klass_qn U c) (cdef_of U cl)).
+        * rewrite (eff_content_klass U S Hwf Hres m' c L C1).
+          cbn [nil_ok] in Hnok. apply negb_true_iff in Hnok.
+          eapply (no_required_attrs c L Hnok C2); [|reflexivity].
+          intros q Hq. destruct (L_flds_known L (chain_known _ _ _ C1) q Hq) as (_ & _ & _ & Hok). exact Hok.
+        * rewrite (klass_qn_get U c cl Ec). cbn [fst]. apply negb_true_iff. assumption.
+        * rewrite (klass_qn_get U c cl Ec). exact Hd3.
+      + destruct Hty as [Hin Hw]. cbn [dty_ok] in Hw. apply andb_prop in Hw. destruct Hw as [Hns _]. apply negb_true_iff in Hns.
+        destruct (rs_arr S U Hres aq iname el Hin) as (d & D1 & D2 & D3). cbn [type_qn].
+        rewrite (resolve_complex S aq _ Hns D3).
+        destruct m' as [|m'']; [lia|]. cbn [eff_content]. rewrite D1, D3. cbn [c_base c_seq c_atts]. reflexivity.
+    - (* a leaf value, or the default *)
+      destruct t as [st| |]; try discriminate Hemit.
+      destruct (pr_leaf (st_base st) sv) as [s| |] eqn:Ep; try discriminate Hemit. cbn in Hemit. injection Hemit as <-.
+      destruct Hty as [Hin Hw]. cbn [dty_ok] in Hw. cbn [type_qn].
+      assert (Hd' : forall d, dflt = Some d -> leaf_conf st d = true /\ extra d = true).
+      { intros d Hdd. destruct (Hd d Hdd) as (st' & Hst & A & B). injection Hst as <-. auto. }
+      destruct Hx' as [(H & _)|[(d & -> & -> & H)|(<- & Hne)]]; [discriminate H| |].
+      + injection H as <-. destruct (Hd' sv eq_refl) as [A B]. eapply leaf_elem_valid; eassumption.
+      + cbn [vconf] in Hconf. apply andb_prop in Hconf. destruct Hconf as [A B]. eapply leaf_elem_valid; eassumption.
+    - (* an object *)
+      destruct Hx' as [(H & _)|[(d0 & _ & _ & H)|(<- & Hne)]]; [discriminate H|discriminate H|].
+      destruct t as [|c|]; try discriminate Hemit.
+      destruct (negb (d =? c)%nat) eqn:Edc; [discriminate|]. apply negb_false_iff in Edc. apply Nat.eqb_eq in Edc. subst d.
+      destruct (flat U c) as [ffs|] eqn:Eflat; [|discriminate].
+      destruct (emit_members (emit U k) ffs fs) as [[kids atts]| |] eqn:Emem; try discriminate. cbn in Hemit. injection Hemit as <-.
+      cbn [ty_known] in Hty. destruct (nth_error U c) as [cl|] eqn:Ec; [|apply nth_error_None in Ec; lia].
+      destruct (chain_exists U Hwf c cl Ec) as [L HL].
+      destruct (HL m' ltac:(lia)) as (C1 & _ & _). destruct (HL (Datatypes.S c) ltac:(lia)) as (_ & C2 & C3).
+      unfold flat in Eflat. rewrite C2 in Eflat. injection Eflat as <-.
+      cbn [vconf] in Hconf. rewrite Nat.eqb_refl in Hconf. cbn [andb] in Hconf. unfold flat_items in Hconf. rewrite C3 in Hconf.
+      pose proof (chain_known _ _ _ C1) as Hkn.
+      pose proof (wf_klass U c cl Hwf Ec) as Hk. unfold klass_ok in Hk. split_all.
+      assert (Hnd : NoDup (map (fun p => fl_name (snd p)) (L_flds L))).
+      { apply nodup_text_NoDup. match goal with H : match flat U c with _ => _ end = true |- _ => unfold flat in H; rewrite C2 in H; exact H end. }
+      destruct (members_match k IHk L fs kids atts Hkn Hnd Hconf Emem) as (K & G & M).
+      destruct (items_conf_fields _ L fs Hconf) as [Hlen Hcf].
+      destruct (attrs_emitted_ok k (L_flds L) fs kids atts (L_flds_known L Hkn) Hnd Hlen Hcf Emem) as [Hat Hplain].
+      destruct (rs_klass S U Hres c cl Ec) as (dd & Hd1 & Hd2 & Hd3).
+      rewrite wire_shape. cbn [type_qn].
+      rewrite (valid_elem_complex m' (klass_qn U c) nillable _ ns name atts (map wire kids) (L_parts U L) (attrs_of (map snd (L_flds L))) Hplain).
+      + rewrite Hat. cbn [andb].
+        assert (Hfil : filter is_elt (map wire kids) = map wire kids).
+        { clear -K. induction (map wire kids) as [|e r IH]; [reflexivity|]. inversion K as [|? ? (p & _ & He) K']; subst.
+          cbn [filter]. destruct e; [|discriminate He]. cbn [is_elt]. f_equal. apply IH. exact K'. }
+        rewrite Hfil, (match_items U (velem_m m') L (map wire kids)); [apply M; exact Hm'| |exact G].
+        intros p Hp. pose proof (item_known_wf _ (Hkn p Hp)) as Hw. destruct (snd p) as [f|g ms]; [exact I|].
+        destruct Hw as [Hne' Hms]. split; [exact Hne'|]. intros f Hf. destruct (Hms f Hf) as (Q1 & Q2 & _). split; [exact Q1|].
+        pose proof (fld_ok_max _ f Q2) as Hmx. destruct (fl_max f) as [|z|]; cbn in *; try discriminate; try reflexivity. lia.
+      + apply (resolve_complex S (klass_qn U c) (cdef_of U cl)).
+        * rewrite (klass_qn_get U c cl Ec). cbn [fst]. apply negb_true_iff. assumption.
+        * rewrite (klass_qn_get U c cl Ec). exact Hd3.
+      + apply (eff_content_klass U S Hwf Hres m' c L C1).
+    - (* an array *)
+      destruct Hx' as [(H & _)|[(d0 & _ & _ & H)|(<- & Hne)]]; [discriminate H|discriminate H|].
+      destruct t as [| |aq iname el]; try discriminate Hemit.
+      destruct (mapM (emit U k el None (fst aq) iname) xs) as [kids| |] eqn:Ekids; try discriminate. cbn in Hemit. injection Hemit as <-.
+      destruct Hty as [Hin Hw]. cbn [dty_ok] in Hw. apply andb_prop in Hw. destruct Hw as [Hns Hwel]. apply negb_true_iff in Hns.
+      destruct (rs_arr S U Hres aq iname el Hin) as (d & D1 & D2 & D3).
+      rewrite wire_shape. cbn [type_qn].
+      assert (Heff : eff_content m' S aq = Some ([(fst aq, PElem (edecl_of U iname el 0 PosInf true None))], [])).
+      { destruct m' as [|m'']; [lia|]. cbn [eff_content]. rewrite D1, D3. cbn [c_base c_seq c_atts map].
+        unfold local_ns. rewrite D2, (find_doc_tns S _ _ D1). reflexivity. }
+      rewrite (valid_elem_complex m' aq nillable _ ns name [] (map wire kids) _ _ eq_refl (resolve_complex S aq _ Hns D3) Heff).
+      cbn [attrs_ok forallb andb].
+      apply mapM_ok in Ekids. cbn [vconf] in Hconf. rewrite forallb_forall in Hconf.
+      assert (Hel : ty_known U el).
+      { pose proof (tys_of_arr aq iname el Hin) as Hin'. destruct el as [st|c|? ? ?]; cbn [ty_known]; [split; assumption| |split; assumption].
+        cbn in Hwel. apply Nat.ltb_lt. exact Hwel. }
+      assert (Hall : Forall (fun e => elt_is (fst aq) iname (wire e) = true
+                                      /\ velem_m m' (edecl_of U iname el 0 PosInf true None) (wire e) = true) kids).
+      { clear Heff Hne Hnil. revert Hconf. induction Ekids as [|y e r es Hye _ IHr]; intros Hconf; [constructor|].
+        constructor; [|apply IHr; intros z Hz; apply Hconf; right; exact Hz].
+        specialize (Hconf y (or_introl eq_refl)). apply andb_prop in Hconf. destruct Hconf as [C1 C2].
+        split; [eapply emit_elt_is; exact Hye|].
+        unfold velem_m. rewrite e_type_edecl, eff_nillable_edecl, e_default_edecl.
+        change None with (dtext el None) at 1.
+        eapply (IHk el None (fst aq) iname y e true Hel); [destruct y; try exact C2; reflexivity| | |exact Hye|exact Hm'].
+        - intros -> _. split; [reflexivity|exact C1].
+        - intros d0 Hd0. discriminate Hd0. }
+      assert (Hfil : filter is_elt (map wire kids) = map wire kids).
+      { clear -Hall. induction Hall as [|e r [He _] _ IH]; [reflexivity|]. cbn [map filter].
+        destruct (wire e); [|discriminate He]. cbn [is_elt]. f_equal. exact IH. }
+      rewrite Hfil. cbn [match_seq]. change (e_name (edecl_of U iname el 0 PosInf true None)) with iname.
+      rewrite <- (app_nil_r (map wire kids)).
+      rewrite (span_name_app (fst aq) iname (map wire kids) []); [| |reflexivity].
+      + unfold occ_ok. rewrite eff_min_edecl, eff_max_edecl. cbn [ext_leb andb].
+        assert (0 <=? len_nodes (map wire kids) = true) as -> by (unfold len_nodes; lia). cbn [andb].
+        rewrite andb_true_r. apply forallb_forall. intros c Hc. apply in_map_iff in Hc. destruct Hc as (e & <- & He).
+        rewrite Forall_forall in Hall. apply (Hall e He).
+      + apply forallb_forall. intros c Hc. apply in_map_iff in Hc. destruct Hc as (e & <- & He).
+        rewrite Forall_forall in Hall. apply (Hall e He).
   Qed.
 
 End Emitted.
